@@ -115,6 +115,19 @@ def cases_for(tier, rng):
                         bd = [T('[')] + [z for v in order for z in (V(v), T(','))] + [T(']')]
                         cases.append(dict(prog=[In(N('seq'), bd, mapping=mapping)],
                                           src=sources(kw={'seq': lst('S', items)}), K=0, fk=[], svn=svn_table(attrs=('x', 'y'))))
+    # batched: the body is rendered for the displayed window only; index / number / letter / roman / even / odd keep counting
+    # in the whole sequence, sequence-start / -end mark the first / last displayed element
+    for kind in ('obj', 'str', 'pair'):
+        for n in range(1, 6):
+            items = [elem(kind, i, ('x1', 'x2')[(i // 2) % 2]) for i in range(n)]
+            for st in range(1, n + 2):
+                for sz in (1, 2, 3):
+                    for ck in ('list', 'tuple', 'gen', 'lazy'):
+                        for pre, rev in ((False, False), (True, False), (False, True)):
+                            blk = In(N('seq'), body(kind, pre, False), [T('EMPTY')], pre=pre, reverse=rev, start=st, size=sz)
+                            cases.append(dict(prog=[T('<'), blk, T('>'), V('x')],
+                                              src=sources(kw={'seq': lst('S', items, ck), 'x': plain('outer-x')}), K=0, fk=[],
+                                              svn=svn_table()))
     # None is an element like any other (every pattern of None / string elements, every container)
     for n in range(1, 5):
         for pat in itertools.product((False, True), repeat=n):
